@@ -53,10 +53,10 @@ private def wireOfCall (c : Call) : Wire :=
     carries the assertion only as an EncryptedData sealed for one of the recipient's designated
     certificates: no clear-text assertion, advice assertion, subject identifier or attribute value —
     for every setting of the other flags and every metadata. -/
-theorem C16_confidential_assertion (c : Call) (iss : Issued) (outerHasAttrs : Bool)
+theorem C16_confidential_assertion (c : Call) (iss : Issued) (outerHasAttrs adviceHasAttrs : Bool)
     (heff : effA c = true) (h : createAuthnResponse c = .ok iss) :
     (∃ k o, iss.wire.body = .sealed k o true ∧ k ∈ candidates c.certAssertion c.md) ∧
-    clearOf outerHasAttrs iss.wire = ⟨false, false, false, false, false⟩ := by
+    clearOf outerHasAttrs adviceHasAttrs iss.wire = ⟨false, false, false, false, false⟩ := by
   obtain ⟨_, he, hk, k, hc⟩ := effA_facts heff
   have hbody : ∃ o, iss.wire.body = .sealed k o true := by
     rcases response_inv h with ⟨he', _⟩ | ⟨_, hk', _⟩ | ⟨_, _, opsB, advB, ko, _, hs, _, hw⟩ | ⟨_, hk', _⟩
@@ -83,9 +83,10 @@ example : effA callRotate = true ∧ (wireOfCall callRotate).body = .sealed 2 {}
     certificate is usable, the issued Response shows neither a clear-text advice assertion nor any of its
     attribute values: the advice leaves sealed for one of the recipient's designated certificates —
     for every setting of the other flags (in particular whatever is signed) and every metadata. -/
-theorem C16_confidential_advice (c : Call) (iss : Issued) (outerHasAttrs : Bool)
+theorem C16_confidential_advice (c : Call) (iss : Issued) (outerHasAttrs adviceHasAttrs : Bool)
     (heff : effAdv c = true) (h : createAuthnResponse c = .ok iss) :
-    ((clearOf outerHasAttrs iss.wire).adviceAssertion = false ∧ (clearOf outerHasAttrs iss.wire).attrsAdvice = false) ∧
+    ((clearOf outerHasAttrs adviceHasAttrs iss.wire).adviceAssertion = false ∧
+     (clearOf outerHasAttrs adviceHasAttrs iss.wire).attrsAdvice = false) ∧
     ∃ k adv, iss.wire.body.outer.advice = some (.sealed k adv true) ∧ k ∈ candidates c.certAdvice c.md := by
   obtain ⟨k, adv, hadv, hc⟩ := advice_sealed heff h
   refine ⟨?_, k, adv, hadv, chooseCert_key_mem hc⟩
@@ -397,7 +398,7 @@ def obsOk (i : Input) (iss : Issued) : Obs :=
   { issued := true
     ops := iss.ops
     wire := wireObs iss.wire
-    leak := clearOf i.outerHasAttrs iss.wire
+    leak := clearOf i.outerHasAttrs i.adviceHasAttrs iss.wire
     tampered := i.tamper && iss.wire.hasCiphertext
     sp := spObs i (receive i.rc (i.sent iss.wire)) (i.outcome iss.wire) }
 
@@ -447,7 +448,7 @@ theorem specConfA_model (i : Input) (iss : Issued) (h : createAuthnResponse i.ca
   cases heff : effA i.call with
   | false => simp
   | true =>
-    obtain ⟨⟨k, o, hb, _⟩, hclear⟩ := C16_confidential_assertion i.call iss i.outerHasAttrs heff h
+    obtain ⟨⟨k, o, hb, _⟩, hclear⟩ := C16_confidential_assertion i.call iss i.outerHasAttrs i.adviceHasAttrs heff h
     simp [obsOk, hclear, wireObs, hb, bodyKind]
 
 theorem specConfAdv_model (i : Input) (iss : Issued)
@@ -456,7 +457,7 @@ theorem specConfAdv_model (i : Input) (iss : Issued)
   cases heff : effAdv i.call with
   | false => simp
   | true =>
-    obtain ⟨⟨h1, h2⟩, _⟩ := C16_confidential_advice i.call iss i.outerHasAttrs heff h
+    obtain ⟨⟨h1, h2⟩, _⟩ := C16_confidential_advice i.call iss i.outerHasAttrs i.adviceHasAttrs heff h
     simp [obsOk, h1, h2]
 
 theorem specKey_model (i : Input) (iss : Issued) (h : createAuthnResponse i.call = .ok iss) :
@@ -582,9 +583,19 @@ theorem specRecover_model (i : Input) (iss : Issued)
     | identity o =>
       obtain ⟨h1, h2, h3⟩ := C16_recoverable i iss hw h hnt hkA hkAdv o hout
       simp only [Bool.not_true, Bool.false_or, obsOk, h1, spObs, h2, beq_self_eq_true, Bool.and_true, Bool.true_and]
-      cases hadv : i.hasAdvice with
+      cases hattr : i.adviceHasAttrs with
       | false => simp
-      | true => simp [h3 hadv]
+      | true =>
+        -- attribute values in an advice assertion: there is an advice assertion
+        have hadv : i.hasAdvice = true := by
+          unfold Input.adviceHasAttrs at hattr
+          unfold Input.hasAdvice Call.advice
+          cases hp : i.call.pefim with
+          | true => simp
+          | false =>
+            simp only [hp, Bool.false_eq_true, if_false, Bool.and_eq_true] at hattr
+            simp [hattr.1]
+        simp [h3 hadv]
 
 theorem specOrder_model (i : Input) (iss : Issued)
     (h : createAuthnResponse i.call = .ok iss) : specOrder i (obsOk i iss) = true := by
